@@ -1009,6 +1009,10 @@ class Analysis:
                         out.add(m[0])
             return out
 
+        # elements that reached at least one node together with their reference counter (an element nobody ever
+        # retained has left the pipeline too, and is owed its callback like any other)
+        delivered = set(m[0] for L in self.ins.values() for i in L for m in i.md if m[1] == 0)
+
         def balance(at_seq, what):
             blocked = blocked_elems() if what == 'at quiescence' else ()
             for elem in sorted(count):
@@ -1023,7 +1027,7 @@ class Analysis:
                     return Violation('C05', 'C05.balance', at_seq,
                                      '%s: element %d has reference count %d but %d legitimate holders %r'
                                      % (what, elem, count[elem], exp, h))
-                if count[elem] == 0 and sched[elem] == 0 and elem in retained_ever:
+                if count[elem] == 0 and sched[elem] == 0 and (elem in retained_ever or elem in delivered):
                     return Violation('C05', 'C05.no_callback_at_zero', at_seq,
                                      '%s: element %d has left the pipeline (count 0) but its completion callback was never triggered' % (what, elem))
             return None
@@ -1105,6 +1109,9 @@ class Analysis:
                                 d[m] -= 1
             elif k == 'ref':
                 elem, what, n_, cnt = e[3], e[4], e[5], e[6]
+                if what == 'new':
+                    count.setdefault(elem, 0)
+                    continue
                 prev = count.get(elem, 0)
                 count[elem] = cnt
                 if what == 'retain' and n_ > 0:
